@@ -88,6 +88,13 @@ impl World {
                         Item::Rel(f) => if *f == STDF { "./stdgates.inc".to_string() } else { format!("f{f}.inc") },
                         _ => unreachable!(),
                     };
+                    // the path is a string literal: some spellings use escape sequences (same path once unescaped);
+                    // deterministic in the item and the nesting depth, so that both texts of a case agree
+                    let written = match (written.len() + depth as usize) % 5 {
+                        0 => written.replacen(".inc", "\\x2einc", 1),
+                        1 => written.replacen("inc", "\\u{69}nc", 1),
+                        _ => written,
+                    };
                     let target = self.resolve(it).filter(|t| self.present.contains(t));
                     match (inline, target) {
                         (true, Some(t)) if depth < 8 => s.push_str(&self.text_of(&self.content[&t], true, depth + 1)),
@@ -102,7 +109,8 @@ impl World {
 
 pub fn run(args: &[String]) {
     silence_panics();
-    let mut w = out();
+    // the printing routines of the implementation write to standard output: detach it
+    let mut w = out_detached();
     let seed = arg_u64(args, "--seed", 1);
     let n = arg_u64(args, "--random", 50);
     let shard = arg_u64(args, "--shard", 0);
@@ -257,6 +265,77 @@ pub fn run(args: &[String]) {
             0 | 1 => run_sema_with(&inlined, Some(&search_paths)),
             _ => run_sema_with(&inlined, None),
         };
+        // ---- the file entry points on the same program: the main program is a file `main.qasm`, given by
+        // an absolute path, or by its bare name and found through the list in force, or in the working
+        // directory; files of the same name (other content) sit where the ordered search must not look first
+        let in_force = world.dirs_in_force.clone();
+        let (main_dir, spelled_abs) = match rng.below(3) {
+            0 => (rng.below(ndirs as u64) as u32, true),
+            1 if !in_force.is_empty() => (in_force[rng.below(in_force.len() as u64) as usize], false),
+            _ => (CWD, false),
+        };
+        let mut decoys: Vec<u32> = Vec::new();
+        for d in (0..ndirs).chain(std::iter::once(CWD)) {
+            if d == main_dir || rng.below(2) == 0 {
+                continue;
+            }
+            let allowed = if spelled_abs {
+                true
+            } else if main_dir == CWD {
+                !in_force.contains(&d)
+            } else {
+                let im = in_force.iter().position(|x| *x == main_dir).unwrap();
+                match in_force.iter().position(|x| *x == d) {
+                    Some(i) => i > im,
+                    None => true,
+                }
+            };
+            if allowed {
+                decoys.push(d);
+            }
+        }
+        let main_path = world.dir(main_dir).join("main.qasm");
+        std::fs::write(&main_path, &text).unwrap();
+        for d in &decoys {
+            std::fs::write(world.dir(*d).join("main.qasm"), "int decoy_main;\nint decoy_main;\n").unwrap();
+        }
+        let spelling: PathBuf = if spelled_abs { main_path.clone() } else { PathBuf::from("main.qasm") };
+        let of = match mode {
+            0 | 1 => run_sema_file(&spelling, Some(&search_paths), false, true),
+            _ => run_sema_file(&spelling, None, case / nshards % 2 == 0, true),
+        };
+        let op = match mode {
+            0 | 1 => run_sema_print(&text, Some(&search_paths)),
+            _ => run_sema_print(&text, None),
+        };
+        let main_canon = std::fs::canonicalize(&main_path).map(|p| p.display().to_string()).unwrap_or_default();
+        let same_as_string_entry = |x: &SemaOut, own_tag: &str| -> Option<String> {
+            if let Some(p) = &x.panic {
+                return Some(format!("panicked: {}", &p[..p.len().min(100)]));
+            }
+            if x.stmts != o.stmts {
+                return Some("gives another graph".into());
+            }
+            if x.symbols != o.symbols {
+                return Some("gives other symbols".into());
+            }
+            if x.syntax_errors != o.syntax_errors || x.any_syntax != o.any_syntax {
+                return Some("counts other syntax diagnostics".into());
+            }
+            let retag = |e: &(String, u32, u32, String)| (e.0.clone(), e.1, e.2, if e.3 == "no file" { own_tag.to_string() } else { e.3.clone() });
+            let want: Vec<_> = o.errors.iter().map(retag).collect();
+            if x.errors != want {
+                return Some(format!("gives other diagnostics: {:?} instead of {:?}", x.errors, want));
+            }
+            None
+        };
+        let entry_verdict = if o.panic.is_some() {
+            None
+        } else if let Some(m) = same_as_string_entry(&of, &main_canon) {
+            Some(format!("FAIL C18,C03: the file entry point (main program {} as {}) {m}", main_path.display(), spelling.display()))
+        } else {
+            same_as_string_entry(&op, "fake.qasm").map(|m| format!("FAIL C12,C03: the string entry point followed by printing its diagnostics {m}"))
+        };
         std::env::remove_var("QASM3_PATH");
         std::env::set_current_dir(root.parent().unwrap()).unwrap();
         let fs_s = if present.is_empty() { "-".to_string() } else { present.iter().map(|(d, f)| format!("{d}:{f}")).collect::<Vec<_>>().join(",") };
@@ -279,7 +358,7 @@ pub fn run(args: &[String]) {
                 // the diagnostic sits on the path written in the include statement (of the including file)
                 let src = if file == "no file" { text.clone() } else { std::fs::read_to_string(file).unwrap_or_default() };
                 let (a, b) = (*_s as usize, *_e as usize);
-                let written = src.get(a..b).unwrap_or("").trim_matches('"').to_string();
+                let written = src.get(a..b).unwrap_or("").trim_matches('"').replace("\\x2e", ".").replace("\\u{69}", "i");
                 let p = PathBuf::from(&written);
                 let name = p.file_name().and_then(|x| x.to_str()).unwrap_or("");
                 let f = if name == "stdgates.inc" { "77" } else { name.trim_start_matches('f').trim_end_matches(".inc") };
@@ -317,6 +396,9 @@ pub fn run(args: &[String]) {
         }
         if o.scope_depth != 1 {
             oracle = format!("FAIL C03: {} scopes open after analysis", o.scope_depth);
+        }
+        if let (false, Some(v)) = (oracle.starts_with("FAIL"), entry_verdict) {
+            oracle = v;
         }
         let oracle = if oracle.starts_with("FAIL") { format!("{oracle} ;; {}", text.replace('\n', "\\n")) } else { oracle };
         writeln!(w, "{head}\t{}|{}\t{oracle}", markers.join(" "), unread.join(" ")).unwrap();
